@@ -1,5 +1,5 @@
 From Coq Require Import String List NArith.
-From JS Require Import Base.Wire Extract.RunOMap Extract.RunNum.
+From JS Require Import Base.Wire Extract.RunOMap Extract.RunNum Extract.RunGuess.
 Import ListNotations.
 
 (* one case line -> one result line; the first token names the model *)
@@ -9,6 +9,7 @@ Definition dispatch (line : bytes) : bytes :=
     if beqb cmd B"omap" then run_omap args
     else if beqb cmd B"sset" then run_sset args
     else if beqb cmd B"num" then run_num args
+    else if beqb cmd B"guess" then run_guess args
     else bad_case
   | [] => bad_case
   end.
